@@ -30,3 +30,9 @@ Theorem C14_affine_equivariant : forall alpha beta a b hist x,
   == a * last_out (ab_step alpha beta) ab_init hist x + b.
 Proof. exact ab_affine_equivariant. Qed.
 Print Assumptions C14_affine_equivariant.
+
+(* ---- the generic (float / integer) model of the bit-exact stream, instantiated at the rationals, is the model above ---- *)
+From Signalo Require Base.Arith Model.Generic Proofs.Generic.
+Theorem C14_generic_ab : forall al be s x, (let '(s', y) := Signalo.Model.Generic.g_ab_step Signalo.Base.Arith.Qar al be s x in (Signalo.Proofs.Generic.ab_of s', y)) = Signalo.Model.Smooth.ab_step al be (Signalo.Proofs.Generic.ab_of s) x.
+Proof. exact Signalo.Proofs.Generic.gq_ab. Qed.
+Print Assumptions C14_generic_ab.
